@@ -50,7 +50,7 @@ def plan(tier, seed):
 def mandatory(tier):
     out = [f"axes/{a}->{b}" for a, b in itertools.product(AXES, AXES)]
     out += [f"warp/{a}" for a in AXES] + [f"sample/{a}" for a in AXES] + [f"exp/{a}" for a in AXES]
-    out += ["shared_grid", "per_field_grids", "per_field_grids/same_spacing_other_orientation", "FlowField", "sitk", "helpers"]
+    out += [f"sample_same_domain/{h}" for h in ("downsample", "upsample", "resize", "flip_align_corners")] + ["shared_grid", "per_field_grids", "per_field_grids/same_spacing_other_orientation", "FlowField", "sitk", "helpers"]
     return out
 
 
@@ -188,20 +188,38 @@ def run_item(ctx, item):
             else:
                 targets = [gen.make_grid(tp)] * N
                 arg = targets[0]
-            out = fa.sample(arg)
-            ok = ctx.true("sample_result", isinstance(out, FlowFields) and len(out.grids()) == N and out.shape[0] == N and out.axes() is ax[a], key="sample/type", got=type(out).__name__, n_grids=len(out.grids()) if hasattr(out, "grids") else -1, batch=int(out.shape[0]), **info)
-            if not ok:
-                continue
-            for n, (ref, tg) in enumerate(zip(refs, targets)):
-                tref = gen.ref_of_grid(tg)
-                w = world_positions(tref)
-                ext = float(np.linalg.norm(ref.s * ref.n))
-                want_w = ((w - ref.c) @ (A[n] * 0.6).T / ext + 0.3 * t[n]) * float(ref.s.mean())
-                got = np.moveaxis(out.tensor()[n].double().numpy(), 0, -1)
-                got_w = tref.vectors(got, a, WORLD)
-                mask = Validity.of(ref).mask(w)
-                if mask.any():
-                    ctx.close("resampled_world_vectors_equal_field_at_new_positions", got_w[mask], want_w[mask], tol, key=f"sample/{a}", item=n, **info)
+            passes = [("sample", arg, targets)]
+            # the same world domain sampled differently (pyramid levels, other size, other flag): cube-normalised and
+            # index vectors still have to be rescaled although the domain did not change
+            how = str(rng.choice(["downsample", "upsample", "resize", "flip_align_corners"]))
+            same = []
+            for g_n in grids:
+                if how == "downsample":
+                    same.append(g_n.downsample(1))
+                elif how == "upsample":
+                    same.append(g_n.upsample(1))
+                elif how == "resize":
+                    same.append(g_n.resize(tuple(int(k) + 3 for k in g_n.size())))
+                else:
+                    same.append(g_n.align_corners(not g_n.align_corners()))
+            passes.append(("sample_same_domain", same[0] if shared else same, same))
+            ctx.bucket(f"sample_same_domain/{how}")
+            for label, arg, targets in passes:
+                info = dict(axes=a, N=N, shared=shared, target=label)
+                out = fa.sample(arg)
+                ok = ctx.true("sample_result", isinstance(out, FlowFields) and len(out.grids()) == N and out.shape[0] == N and out.axes() is ax[a], key="sample/type", got=type(out).__name__, n_grids=len(out.grids()) if hasattr(out, "grids") else -1, batch=int(out.shape[0]), **info)
+                if not ok:
+                    continue
+                for n, (ref, tg) in enumerate(zip(refs, targets)):
+                    tref = gen.ref_of_grid(tg)
+                    w = world_positions(tref)
+                    ext = float(np.linalg.norm(ref.s * ref.n))
+                    want_w = ((w - ref.c) @ (A[n] * 0.6).T / ext + 0.3 * t[n]) * float(ref.s.mean())
+                    got = np.moveaxis(out.tensor()[n].double().numpy(), 0, -1)
+                    got_w = tref.vectors(got, a, WORLD)
+                    mask = Validity.of(ref).mask(w)
+                    if mask.any():
+                        ctx.close("resampled_world_vectors_equal_field_at_new_positions", got_w[mask], want_w[mask], tol, key=f"{label}/{a}", item=n, **info)
     # ---------------- 4. exp(): same world result from every representation
     sm = []
     for ref in refs:
